@@ -31,24 +31,25 @@ def S(label, gamma, timeout, ids, alph, flags=e1.F_DUMP | e1.F_STATS, maxdepth=N
 
 
 def reload_alphabet(ids):
-    """Hurry-up scenario of one client plus reloads of the service table at any point: the awaited login service is removed,
-    a differently named login service (ghost.svc) is added - possibly into the vacated slot - or the original table returns."""
+    """Hurry-up scenario of one client plus reloads of the service table at any point: an awaited or an idle service is removed
+    (so that a slot is vacated below or above the awaited one), a differently named login service (ghost.svc) is added - possibly
+    into the vacated slot - or the original table returns."""
     base = alpha.make(ids, data=('H',), ends=('D',), passwords=('x', 'bang'), replies=('OKA', 'MORE'), old_replies=(), malformed=(),
-                      ghost_replies=('OKA', 'MORE'), pbudget=2, dead_probes=False, reannounce=False)
+                      ghost_replies=('OKA', 'MORE'), pbudget=1, dead_probes=False, reannounce=False)
     def fn(st, w):
-        return base(st, w) + [('RL', 'none.conf'), ('RL', 'ghost.conf'), ('RL', 'orig.conf')]
+        return base(st, w) + [('RL', 'no-a.conf'), ('RL', 'no-b.conf'), ('RL', 'ghost.conf'), ('RL', 'orig.conf')]
     return fn
 
 
 def reload_search(tier):
-    services = [('login.svc', 'login')]
+    services = [('a.svc', 'login'), ('b.svc', 'dronecheck'), ('c.svc', 'login')]
     rules = rules_for(services)
-    files = {'none.conf': lambda md: e1.conf_text(md, services=[], timeout=0, rules=rules),
-             'ghost.conf': lambda md: e1.conf_text(md, services=[('ghost.svc', 'login')], timeout=0, rules=rules),
+    files = {'no-a.conf': lambda md: e1.conf_text(md, services=services[1:], timeout=0, rules=rules),
+             'no-b.conf': lambda md: e1.conf_text(md, services=[services[0], services[2]], timeout=0, rules=rules),
+             'ghost.conf': lambda md: e1.conf_text(md, services=[('b.svc', 'dronecheck'), ('ghost.svc', 'login')], timeout=0, rules=rules),
              'orig.conf': lambda md: e1.conf_text(md, services=services, timeout=0, rules=rules)}
-    return dict(label='solo/reloads/login/t0', services=services, rules=rules, timeout=0, ids=[1], alphabet=reload_alphabet([1]), flags=e1.F_DUMP | e1.F_STATS,
-                maxdepth=12 if tier != 'quick' else 8, maxstates=60000 if tier != 'quick' else 6000, keep_refs=True, reload_files=files, merge_check=False)
-
+    return dict(label='solo/reloads/login+drone+login/t0', services=services, rules=rules, timeout=0, ids=[1], alphabet=reload_alphabet([1]), flags=e1.F_DUMP | e1.F_STATS,
+                maxdepth=12 if tier != 'quick' else 7, maxstates=60000 if tier != 'quick' else 8000, keep_refs=True, reload_files=files, merge_check=False)
 
 
 def plan_solo(tier, which=('hurry', 'orders')):
